@@ -45,9 +45,19 @@
 #include "esx.h"
 #include "galloc.h"
 
-#include "memtrace.c" /* library TU under test: white-box struct alloc_tracer */
-
-#include <aws/common/private/hash_table_impl.h>
+#ifndef NO_WHITEBOX
+#    include "memtrace.c" /* library TU under test: white-box struct alloc_tracer */
+#    include <aws/common/private/hash_table_impl.h>
+#else
+/* fallback build (the driver retries with -DNO_WHITEBOX when the private structures of memtrace.c / hash_table_impl.h
+ * no longer have the shape the white-box part expects): public API only.  The canonical state then lacks the tracer's
+ * own table, so "equal canon => equal futures" holds only as far as bytes/count are a faithful image of it; the run is
+ * reported as degraded. */
+#    include <aws/common/allocator.h>
+#    include <aws/common/atomics.h>
+#    include <aws/common/hash_table.h>
+#    include <aws/common/logging.h>
+#endif
 
 #define MAXS 4
 #define NSIZES 3
@@ -168,11 +178,13 @@ static void m_reset(void) {
     memset(sl, 0, sizeof(sl));
     memset(freed, 0, sizeof(freed));
     nfreed = 0;
+#ifndef NO_WHITEBOX
     struct alloc_tracer *t = (struct alloc_tracer *)tr->impl;
     if (t->level != g_cfg.level) { /* backtrace unavailable: the library clamps STACKS to BYTES — the run would be vacuous */
         fprintf(stderr, "traceseq: tracer level clamped (%d instead of %d): no backtrace support\n", (int)t->level, (int)g_cfg.level);
         _exit(2);
     }
+#endif
 }
 
 static const char *cur_name(void);
@@ -412,6 +424,7 @@ GA_NOSAN static size_t cand_addrs(const void **out) {
     return n;
 }
 
+#ifndef NO_WHITEBOX
 /* (role of the key, recorded size, probe displacement) of one table entry; struct hash_table_entry starts with its element */
 static void canon_entry(uint8_t *e, const struct hash_table_state *hs, const struct hash_table_entry *he) {
     size_t oo = 0;
@@ -425,6 +438,7 @@ static void canon_entry(uint8_t *e, const struct hash_table_state *hs, const str
     if (disp) V_COUNT("tracer_table_displaced_entries", 1);
     put16(e, &oo, disp);
 }
+#endif
 
 static size_t m_canon(uint8_t *b, size_t cap) {
     (void)cap;
@@ -448,6 +462,7 @@ static size_t m_canon(uint8_t *b, size_t cap) {
     /* (d) public observations */
     put32(b, &o, aws_mem_tracer_bytes(tr));
     put32(b, &o, aws_mem_tracer_count(tr));
+#ifndef NO_WHITEBOX
     /* (c) tracer accounting state */
     struct alloc_tracer *t = (struct alloc_tracer *)tr->impl;
     if (t->level != AWS_MEMTRACE_NONE) {
@@ -481,6 +496,7 @@ static size_t m_canon(uint8_t *b, size_t cap) {
         memcpy(b + o, ent, ne * 6);
         o += ne * 6;
     }
+#endif
     return o;
 }
 
